@@ -12,6 +12,7 @@ import labrea
 import labrea.functions as F
 from labrea import (Iter, Map, Option, Template, WithDefaultOptions, WithOptions, cached, case, coalesce, dataset,
                     evaluatable_dict, evaluatable_list, evaluatable_tuple, pipeline_step, switch)
+from labrea import datasetclass
 from labrea.application import FunctionApplication
 from labrea.dataset import Dataset
 from labrea.computation import Effect
@@ -282,6 +283,20 @@ class Built:
 
     def n_iter(self, n):
         return Iter(*[self.node(i) for i in n["items"]])
+
+    def n_dclass(self, n):
+        own, ann, inherited = {}, {}, {}
+        for m in n["members"]:
+            target = inherited if m["inherited"] else own
+            target[m["name"]] = self.node(m["node"])
+            if m["annotated"] and not m["inherited"]:
+                ann[m["name"]] = object
+        if ann:
+            own["__annotations__"] = ann
+        base = type("GeneratedBase", (), inherited) if inherited else object
+        cls = type("Generated", (base,), own)
+        cls.__vlib_members__ = [m["name"] for m in n["members"]]
+        return datasetclass(cls)
 
     def n_dict(self, n):
         return evaluatable_dict({k: self.node(v) for k, v in n["items"]})
